@@ -451,6 +451,17 @@ def gen_const(rng, tid, special=None):
     return s
 
 
+def usable_field_name(n):
+    return n.isidentifier() and n.isascii() and not n.startswith('_') and n not in PY_KEYWORDS and n not in FIELD_RESERVED and n != 'mro'
+
+
+def taken_names(ctx_):
+    """names that already mean something in the specification and are legal field names: the reusable field definitions, the
+    records declared so far (`all_records`: every record of the specification) and the enums"""
+    out = [d['name'] for d in ctx_['defs']] + list(ctx_.get('all_records', ctx_['records'])) + sorted(ctx_['enums'])
+    return [n for n in dict.fromkeys(out) if usable_field_name(n)]
+
+
 def gen_field(rng, names, ctx_, allow_def=True, in_record=False, force=None):
     """one <field>.  ctx_: {'enums': {name: type}, 'records': [names usable here], 'defs': [fielddef dicts]}"""
     f = {'name': None, 'def': None, 'type': None, 'ref': None, 'array': None, 'length': None, 'default': None, 'endian': None}
@@ -458,7 +469,14 @@ def gen_field(rng, names, ctx_, allow_def=True, in_record=False, force=None):
         d = rng.choice(ctx_['defs'])
         f['def'] = d['name']
         if rng.random() < 0.5 or d['name'] in names.local:
-            f['name'] = names.fresh_field()
+            # the new name: a fresh one, or a name that already means something else in this specification — ANOTHER field
+            # definition, a record, an enum (a reference renames a copy; it defines nothing)
+            pool = [n for n in taken_names(ctx_) if n != d['name'] and n not in names.local]
+            if pool and rng.random() < 0.3:
+                f['name'] = rng.choice(pool)
+                names.local.add(f['name'])
+            else:
+                f['name'] = names.fresh_field()
         else:
             names.local.add(d['name'])
         return f
@@ -734,6 +752,162 @@ def enum_default_stats(spec):
                        'name-of-its-own-value' if d in by_name else
                        'a-value' if d in by_name.values() else 'no-member')
                 yield f'enum-default:{e["type"]}:{how}:{sec[:-1]}:{rel}'
+
+
+def def_sig(f, enum_types):
+    """what a field definition means on the wire and in the class (its name apart): two definitions with different
+    signatures give different `Field(...)` entries"""
+    t = f.get('type') or ''
+    if t.startswith('enum:'):
+        t = 'enum-of:' + str(enum_types.get(t[5:]))
+    arr = f.get('array') is not None
+    return (t, f.get('length'), arr, (f.get('endian') == 'big') if arr else None, f.get('default'))
+
+
+def gen_def_shadow_spec(rng, tier):
+    """inside the quantifier, aimed at 'a def-reference gives the field the type of the definition it names' whatever else the
+    file says: two to five reusable definitions with pairwise DIFFERENT meaning (datatype, length, array, count endian,
+    default), some of them named like a record or an enum of the file; records and messages in which
+      * `<field name="Y" def="X"/>` renames a copy of X to the name of ANOTHER definition Y (or of a record / an enum),
+      * Y itself is referenced — `<field def="Y"/>` and `<field name="z" def="Y"/>` — BEFORE and AFTER that element: earlier
+        and later in the same record / message (renamed: one class has no two fields called Y), in earlier and later records,
+        in earlier and later messages,
+      * X keeps being referenced too, and the records are used by the messages (alone and as array elements).
+    A reference defines nothing: every field declared by reference has the type of the definition the `fielddef-root`
+    section gives for that name, wherever the element stands."""
+    impl = rng.choice(IMPLS)
+    names = Names(rng, RESERVED_CLASS)
+    spec = {'enums': [], 'fielddefs': [], 'records': [], 'messages': []}
+    enum_types, enum_values, consts = {}, {}, {}
+    for _ in range(rng.choice([0, 1, 1, 2])):
+        tid = rng.choice(INT_IDS + CHAR_IDS * 3)
+        en = names.fresh(rng.choice(['E', 'Side', 'e']))
+        mn = FieldNames(rng)
+        vals = [{'name': mn.fresh_field(), 'value': v} for v in sorted({gen_const(rng, tid) for _ in range(rng.randint(1, 4))})]
+        spec['enums'].append({'name': en, 'type': tid, 'values': vals})
+        enum_types[en], enum_values[en], consts[en] = tid, [v['value'] for v in vals], enum_consts(vals, tid)
+    rec_names = [names.fresh(rng.choice(['R', 'Leg', 'rec_'])) for _ in range(rng.choice([0, 1, 1, 2, 3]))]
+    class_names = [n for n in rec_names + sorted(enum_types) if usable_field_name(n)]
+    ctx_ = {'enums': enum_types, 'enum_values': enum_values, 'enum_consts': consts, 'records': [], 'defs': [],
+            'all_records': rec_names}
+    # ---- the definitions: pairwise different meaning
+    dn, sigs = FieldNames(rng), set()
+    n_defs = rng.choice([2, 2, 3, 3, 4, 5])
+    while len(spec['fielddefs']) < n_defs:
+        f = gen_field(rng, dn, ctx_, allow_def=False, force=rng.choice(['prim'] * 4 + ['fixed'] + (['enum'] if enum_types else [])))
+        sig = def_sig(f, enum_types)
+        if sig in sigs:
+            dn.local.discard(f['name'])
+            continue
+        sigs.add(sig)
+        free = [n for n in class_names if n not in dn.local]
+        if free and rng.random() < 0.25:                   # a definition named like a record / an enum of the file
+            dn.local.discard(f['name'])
+            f['name'] = rng.choice(free)
+            dn.local.add(f['name'])
+        spec['fielddefs'].append(f)
+    ctx_['defs'] = spec['fielddefs']
+    def_names = [d['name'] for d in spec['fielddefs']]
+    # ---- the containers in document order: records, then messages
+    n_msgs = rng.choice([2, 2, 3, 4])
+    conts = [('records', n) for n in rec_names] + [('messages', i) for i in range(n_msgs)]
+    plans, local = [[] for _ in conts], [FieldNames(rng) for _ in conts]
+
+    def ref(ci, d, plain):
+        fn = local[ci]
+        if plain and d not in fn.local:
+            fn.local.add(d)
+            return blank_field(None, **{'def': d})
+        return blank_field(fn.fresh_field(), **{'def': d})
+
+    def index_of(ci, f):
+        return [i for i, g in enumerate(plans[ci]) if g is f][0]
+
+    for _ in range(rng.choice([1, 1, 1, 2, 3])):
+        # X renamed to Y
+        y = rng.choice(def_names) if (rng.random() < 0.8 or not class_names) else rng.choice(class_names)
+        xs = [n for n in def_names if n != y]
+        x = rng.choice(xs)
+        cands = [ci for ci in range(len(conts)) if y not in local[ci].local]
+        if not cands:
+            continue
+        ci = rng.choice(cands)
+        ren = blank_field(y, **{'def': x})
+        local[ci].local.add(y)
+        plans[ci].insert(rng.randrange(len(plans[ci]) + 1), ren)
+        if y not in def_names:
+            continue                                        # named like a class only: nothing is shadowed, the rename is legal
+        after = 0
+        for cj in range(len(conts)):
+            if cj == ci:
+                if rng.random() < 0.5:
+                    plans[ci].insert(rng.randrange(index_of(ci, ren) + 1), ref(ci, y, False))
+                if rng.random() < 0.6:
+                    plans[ci].insert(rng.randrange(index_of(ci, ren) + 1, len(plans[ci]) + 1), ref(ci, y, False))
+                    after += 1
+            elif rng.random() < (0.6 if cj < ci else 0.75):
+                plans[cj].insert(rng.randrange(len(plans[cj]) + 1), ref(cj, y, rng.random() < 0.6))
+                after += cj > ci
+        if not after:                                       # at least one reference to Y after the renaming element
+            cj = rng.choice(range(ci, len(conts)))
+            if cj == ci:
+                plans[ci].insert(rng.randrange(index_of(ci, ren) + 1, len(plans[ci]) + 1), ref(ci, y, False))
+            else:
+                plans[cj].insert(rng.randrange(len(plans[cj]) + 1), ref(cj, y, rng.random() < 0.6))
+        for cj in range(len(conts)):                        # X stays in use under its own name / other names
+            if rng.random() < 0.25:
+                plans[cj].insert(rng.randrange(len(plans[cj]) + 1), ref(cj, x, rng.random() < 0.5))
+    # ---- assemble; other fields around them
+    used = rng.sample(range(256), n_msgs)
+    for ci, (sec, key) in enumerate(conts):
+        fields, fn = plans[ci], local[ci]
+        for _ in range(rng.choice([0, 0, 1, 2, 3])):
+            fields.insert(rng.randrange(len(fields) + 1), gen_field(rng, fn, ctx_, in_record=sec == 'records'))
+        if sec == 'records':
+            spec['records'].append({'name': key, 'fields': fields})
+            ctx_['records'] = ctx_['records'] + [key]
+        else:
+            for rn in rec_names:
+                if rng.random() < 0.6:
+                    arr = rng.random() < 0.5
+                    fields.insert(rng.randrange(len(fields) + 1),
+                                  blank_field(fn.fresh_field(), type='record:' + rn, array='true' if arr else None,
+                                              endian=rng.choice([None, 'big', 'little']) if arr else None))
+            spec['messages'].append({'name': names.fresh(rng.choice(['M', 'Order', 'm'])), 'msgid': str(used[key]), 'group': None,
+                                     'direction': rng.choice(['incoming', 'outgoing']), 'fields': fields})
+    return impl, spec
+
+
+def def_ref_stats(spec):
+    """input distribution of the def-references: what the new name of a renaming reference is (fresh / the name of another
+    definition of different meaning / of a record / of an enum) and, for a name that is another definition's, where that
+    definition is referenced relative to the renaming element (document order; records come before messages)"""
+    enum_types = {e['name']: e['type'] for e in spec['enums']}
+    defs = {d['name']: d for d in spec['fielddefs']}
+    recs, enums = {r['name'] for r in spec['records']}, set(enum_types)
+    elems = []                                              # (container index, section, position, field)
+    for ci, (sec, cont) in enumerate([('record', r) for r in spec['records']] + [('message', m) for m in spec['messages']]):
+        for pos, f in enumerate(cont['fields']):
+            if f.get('def'):
+                elems.append((ci, sec, pos, f))
+    for ci, sec, pos, f in elems:
+        if f.get('name') is None or f['name'] == f['def']:
+            yield f'def-ref:{sec}:as-it-is'
+            continue
+        y = f['name']
+        if y in defs and f['def'] in defs:
+            same = def_sig(defs[y], enum_types) == def_sig(defs[f['def']], enum_types)
+            yield f'def-ref:{sec}:renamed-to-another-definition' + (':same-meaning' if same else '')
+            for cj, sec2, pos2, g in elems:
+                if g['def'] != y:
+                    continue
+                when = 'before' if (cj, pos2) < (ci, pos) else 'after'
+                where = 'same-' + sec if cj == ci else ('other-' + sec2)
+                yield f'shadowed-definition-referenced:{when}:{where}:{"renamed" if g.get("name") else "as-it-is"}'
+        elif y in recs or y in enums:
+            yield f'def-ref:{sec}:renamed-to-a-{"record" if y in recs else "enum"}-name'
+        else:
+            yield f'def-ref:{sec}:renamed-fresh'
 
 
 def blank_field(name, **kw):
@@ -1332,6 +1506,10 @@ def judge(ctx, case, res, model):
                 more = (f'; e.g. {msg["name"]} built with {json.dumps(tr)[:200]} (unset: {unset}) encodes as {got["enc"][2]}, '
                         f'the reference codec of the XML gives {expected.hex()}')
                 break
+        notes = def_ref_notes(case, res['schema']['schema'])
+        if notes:
+            extra['def_references'] = notes[:6]
+            more = '; a field declared by reference has not the type of the definition it names: ' + notes[0] + more
         report(ctx, 'generated classes differ from the specification: ' + first_diff(res['schema']['schema'], ref_sx) + more,
                case.replay_dict(kind=diagnose(case, res), **extra))
         return False
@@ -1371,6 +1549,36 @@ def judge(ctx, case, res, model):
             report(ctx, f'{msg["name"]}: re-encoding the decoded message gives other bytes', rd())
             clean = False
     return clean
+
+
+def def_ref_notes(case, got_text):
+    """oracle detail, implementation against the XML only: for every field a record / message declares by `def=`, the (type,
+    default) the generated class gives it against the (type, default) of the definition of that name in `fielddef-root`"""
+    from common import parse_sx
+    _ref_sx, _rich, canon = case.ref
+    txt = lambda l: ''.join(chr(int(c)) for c in l)
+    try:
+        got = parse_sx(got_text)[0]
+        have, want = {}, {}
+        for table, schema in ((have, got), (want, canon)):
+            for idx in (3, 4):
+                for cls in schema[idx][1:]:
+                    table[(idx, txt(cls[1]))] = {txt(f[1]): (sx(f[2]), sx(f[3])) for f in cls[-1]}
+    except Exception:   # noqa  — an unexpected shape of the introspection result: the plain schema difference is reported
+        return []
+    notes = []
+    for idx, sec in ((3, 'records'), (4, 'messages')):
+        for cont in case.spec[sec]:
+            for pos, f in enumerate(cont['fields']):
+                if not f.get('def'):
+                    continue
+                name = f['name'] or f['def']
+                w, h = want.get((idx, cont['name']), {}).get(name), have.get((idx, cont['name']), {}).get(name)
+                if w is not None and h is not None and w != h:
+                    notes.append(f'{sec[:-1]} {cont["name"]}, element {pos} {field_xml(f)}: the definition {f["def"]!r} declares '
+                                 f'{readable(w[0])} default {readable(w[1])}, the generated class has {readable(h[0])} default '
+                                 f'{readable(h[1])}')
+    return notes
 
 
 def _enum_to_value(plain, tr):
@@ -1605,6 +1813,7 @@ def run(ctx):
     n_mal = 3 if quick else 30                 # per malformed kind
     n_known = 4 if quick else 40               # per known-defect shape
     n_enum = 60 if quick else 2500             # enum-typed fields with declared defaults over overlapping member names / values
+    n_shadow = 120 if quick else 4000          # def-references renamed to names that already mean something, referenced before/after
     n_values = 3 if quick else 6
     ctx.cov['rule'] = ('grammar-based XML specifications (itch/ouch/sqf; enums of every integer/char datatype; reusable field '
                        'definitions referenced with and without rename; records in records, messages and arrays; every documented '
@@ -1613,7 +1822,9 @@ def run(ctx):
                        'like its own / another member\'s value — with defaults on enum-typed fields declared inline, through a '
                        'field definition, renamed, in records and messages, the default text drawn from the values AND the '
                        'one-character names; every message encoded once with all defaulted fields unset, records with unset '
-                       'fields) -> real generate entry point -> ast of the generated file + import + introspection, compared '
+                       'fields; def-references whose new name is the name of ANOTHER field definition of different meaning / of a '
+                       'record / of an enum, with references to the definition of that name before and after the renaming '
+                       'element, in the same and in other records and messages) -> real generate entry point -> ast of the generated file + import + introspection, compared '
                        'with gen / evalModule of the Lean model and with a reference schema and codec written from the XML '
                        'documentation; distinct = distinct (impl, spec); malformed and known-defect shapes are compared with the '
                        'model only / reported as known findings')
@@ -1641,6 +1852,10 @@ def run(ctx):
         impl, spec = gen_enum_default_spec(rng, ctx.tier)
         cases.append(Case(f'e{k}', 'wf', impl, spec, kind='enum-defaults'))
         k += 1
+    for _ in range(n_shadow):
+        impl, spec = gen_def_shadow_spec(rng, ctx.tier)
+        cases.append(Case(f's{k}', 'wf', impl, spec, kind='def-shadow'))
+        k += 1
     for kind in FORMER_DEFECTS:                 # the shapes of the repaired defects, as ordinary well-formed input
         for _ in range(n_known):
             impl, spec = gen_known_spec(rng, ctx.tier, kind)
@@ -1660,6 +1875,8 @@ def run(ctx):
                           + (':array' if f['array'] else '') + (':default' if f['default'] is not None else ''))
         if c.cls == 'wf':
             for key in enum_default_stats(c.spec):
+                ctx.count(key)
+            for key in def_ref_stats(c.spec):
                 ctx.count(key)
     ctx.cov['samples'] = [c.xml[:1500] for c in cases[:3]]
     run_cases(ctx, cases, workers=min(8, os.cpu_count() or 2))
